@@ -64,6 +64,15 @@ def run(cmd, cwd, env, log, timeout=1800):
     return p.returncode, out
 
 
+def parser_src(rdir, env, log):
+    """Directory of the engine.io-go-parser module the tree under test uses (module cache)."""
+    rc, out = run(["go", "list", "-m", "-f", "{{.Dir}}", "github.com/zishang520/engine.io-go-parser"], rdir, env, log)
+    d = out.strip().splitlines()[-1] if out.strip() else ""
+    if rc != 0 or not os.path.isdir(d):
+        return None
+    return d
+
+
 def ensure_instrumenter(env, log):
     tool = os.path.join(VERIF, "tools", "instrument", "instrument")
     src = os.path.join(VERIF, "tools", "instrument", "main.go")
@@ -110,7 +119,25 @@ def build(verbose=False, gate=True):
                     shutil.copy(os.path.join(VERIF, "simrt", f), os.path.join(rdir, "simrt", f))
             with open(os.path.join(rdir, "simrt", "sites_gen.go"), "w") as f:
                 f.write("package simrt\n")
-            rc, out = run([tool, rdir], rdir, env, log)
+            # the engine.io parser dependency is vendored next to the copy and instrumented too, so that
+            # its decode loops have yield points (work-budget clause of C09, inbound interleavings of C02)
+            pdir = os.path.join(rdir, "_deps", "eioparser")
+            extra = []
+            psrc = parser_src(rdir, env, log)
+            if psrc:
+                shutil.copytree(psrc, pdir)
+                for d, _, fs in os.walk(pdir):
+                    os.chmod(d, 0o755)
+                    for f in fs:
+                        os.chmod(os.path.join(d, f), 0o644)
+                with open(os.path.join(pdir, "go.mod"), "a") as f:
+                    f.write("\nrequire github.com/zishang520/engine.io/v2 v2.0.0-00010101000000-000000000000\nreplace github.com/zishang520/engine.io/v2 => ../..\n")
+                if os.path.exists(os.path.join(rdir, "go.sum")):
+                    shutil.copy(os.path.join(rdir, "go.sum"), os.path.join(pdir, "go.sum"))
+                with open(os.path.join(rdir, "go.mod"), "a") as f:
+                    f.write("\nreplace github.com/zishang520/engine.io-go-parser => ./_deps/eioparser\n")
+                extra = [pdir + ":parser,utils,types,packet"]
+            rc, out = run([tool, rdir] + extra, rdir, env, log)
             if rc != 0:
                 raise BuildError("instrumenter failed:\n" + out[-3000:])
             warns = [l for l in out.splitlines() if l.startswith("WARN")]
@@ -123,6 +150,8 @@ def build(verbose=False, gate=True):
             # harness
             mod = open(os.path.join(VERIF, "sim", "go.mod")).read()
             mod = mod.replace("=> /placeholder/repo", "=> " + rdir)
+            if psrc:
+                mod += "\nreplace github.com/zishang520/engine.io-go-parser => " + pdir + "\n"
             modfile = os.path.join(bdir, "go.mod")
             with open(modfile, "w") as f:
                 f.write(mod)
